@@ -217,14 +217,30 @@ func (g *Gen) recvCase(ok [rcN]bool, module bool, usedPool *[][2]uint64) {
 	from := g.acct[submitter]
 	caller := make([]byte, 32)
 	if ok[rcCaller] {
-		if g.chance(0.5) {
+		switch g.pick(4) {
+		case 0, 1:
 			caller = pad32(g.acctRaw[submitter])
+		case 2:
+			// only the low 20 bytes name the caller; the high 12 are ignored by the address comparison
+			caller = pad32(g.acctRaw[submitter])
+			copy(caller[:12], g.randBytes(12))
 		}
 	} else {
-		if g.chance(0.5) {
+		switch g.pick(5) {
+		case 0:
 			caller = pad32(g.acctRaw[(submitter+1)%len(g.acct)])
-		} else {
+		case 1:
 			caller = g.rand32()
+		case 2:
+			// non-zero field whose low 20 bytes are zero: still "a caller is named" (and it is nobody)
+			caller = make([]byte, 32)
+			caller[g.pick(12)] = byte(1 + g.pick(255))
+		case 3:
+			caller = make([]byte, 32)
+			caller[31] = 1
+		default:
+			caller = pad32(g.acctRaw[(submitter+1)%len(g.acct)])
+			copy(caller[:12], g.randBytes(12))
 		}
 	}
 	dest := uint32(4)
@@ -439,6 +455,9 @@ func (g *Gen) depCase(ok [dcN]bool, withCaller bool, limit *big.Int) {
 		amount = []string{"0", "-1", "-", "-1000"}[g.pick(4)]
 	case !ok[dcWithinLimit]:
 		a := new(big.Int).Add(limit, one)
+		if a.Sign() <= 0 {
+			a = big.NewInt(1)
+		}
 		if g.chance(0.3) {
 			a = new(big.Int).Add(limit, big.NewInt(int64(2+g.pick(1000))))
 		}
@@ -457,10 +476,12 @@ func (g *Gen) depCase(ok [dcN]bool, withCaller bool, limit *big.Int) {
 		case 2:
 			amount = "1"
 		default:
-			amount = new(big.Int).Add(one, new(big.Int).Rand(g.rng, limit)).String()
+			if limit.Sign() > 0 {
+				amount = new(big.Int).Add(one, new(big.Int).Rand(g.rng, limit)).String()
+			}
 		}
-		if limit.Sign() == 0 {
-			amount = "1" // a zero limit admits nothing positive; this cell is then "over the limit"
+		if limit.Sign() <= 0 {
+			amount = "1" // a zero or negative limit admits nothing positive; this cell is then "over the limit"
 		}
 	}
 	if a, okp := new(big.Int).SetString(amount, 10); okp && a.Sign() > 0 {
@@ -521,7 +542,12 @@ func (g *Gen) depCase(ok [dcN]bool, withCaller bool, limit *big.Int) {
 func scnDepMatrix(g *Gen, budget int, arg string) {
 	limits := []*big.Int{big.NewInt(1), big.NewInt(1000), new(big.Int).Lsh(big.NewInt(1), 64), new(big.Int).Sub(new(big.Int).Lsh(big.NewInt(1), 255), big.NewInt(1)), big.NewInt(0)}
 	first := true
+	defer func() { mintDenom = "uusdc" }()
 	for g.nOps < budget {
+		mintDenom = "uusdc"
+		if !first && g.chance(0.3) {
+			mintDenom = "uUsDC"
+		}
 		g.initStandard(2, 1)
 		allOK := [dcN]bool{}
 		for i := range allOK {
@@ -531,6 +557,10 @@ func scnDepMatrix(g *Gen, budget int, arg string) {
 			g.depCase(allOK, false, l)
 			g.depCase(allOK, true, l)
 		}
+		// a limit of zero (or below) is a limit: it admits no positive amount
+		g.depCase(allOK, false, big.NewInt(0))
+		g.depCase(allOK, true, big.NewInt(0))
+		g.depCase(allOK, false, big.NewInt(-5))
 		if first {
 			for i := 0; i < dcN; i++ {
 				c := allOK
